@@ -29,6 +29,7 @@ class Cfg:
     shuffle_insert: bool = True
     sort_then_slice_prob: float = 0.0
     twin_leaf_prob: float = 0.12
+    mapping_payloads: bool = True
 
 
 class Gen:
@@ -105,6 +106,23 @@ class Gen:
             spec["min"], spec["max"] = n, n
         if cfg.shuffle_insert and rng.random() < 0.5:
             spec["ins_seed"] = rng.randint(0, 10**6)
+        if cfg.mapping_payloads and not engine.startswith("sql") and keycols and rng.random() < 0.2:
+            # iteration payload held as a RowMapping keyed on (a permutation of) the key columns,
+            # which lets Deduplication return the payload itself
+            seen = set()
+            uniq = []
+            for r in rows:
+                k = tuple(r[cols.index(c)] for c in keycols)
+                if k not in seen:
+                    seen.add(k)
+                    uniq.append(r)
+            spec["rows"] = uniq
+            key = list(keycols)
+            if rng.random() < 0.5:
+                rng.shuffle(key)
+            spec["mapping_key"] = key
+            n = len(uniq)
+            spec["min"], spec["max"] = n, n
         self.leaves[name] = spec
         return ["leaf", name], frozenset(cols), engine
 
